@@ -157,10 +157,12 @@ func ParseWithSpecialTableName(dest interface{}, cacheStore *sync.Map, namer Nam
 	// Load exist schema cache, return if exists
 	if v, ok := cacheStore.Load(schemaCacheKey); ok {
 		s := v.(*Schema)
+		verifPoint("sc:wait", modelType, s)
 		// Wait for the initialization of other goroutines to complete
 		<-s.initialized
 		return s, s.err
 	}
+	verifPoint("sc:miss1", modelType)
 
 	modelValue := reflect.New(modelType)
 	tableName := namer.TableName(modelType.Name())
@@ -195,10 +197,12 @@ func ParseWithSpecialTableName(dest interface{}, cacheStore *sync.Map, namer Nam
 	// Load exist schema cache, return if exists
 	if v, ok := cacheStore.Load(schemaCacheKey); ok {
 		s := v.(*Schema)
+		verifPoint("sc:wait", modelType, s)
 		// Wait for the initialization of other goroutines to complete
 		<-s.initialized
 		return s, s.err
 	}
+	verifPoint("sc:miss2", modelType)
 
 	for i := 0; i < modelType.NumField(); i++ {
 		if fieldStruct := modelType.Field(i); ast.IsExported(fieldStruct.Name) {
@@ -324,10 +328,13 @@ func ParseWithSpecialTableName(dest interface{}, cacheStore *sync.Map, namer Nam
 	// Cache the schema
 	if v, loaded := cacheStore.LoadOrStore(schemaCacheKey, schema); loaded {
 		s := v.(*Schema)
+		verifPoint("sc:wait", modelType, s)
 		// Wait for the initialization of other goroutines to complete
 		<-s.initialized
 		return s, s.err
 	}
+	verifPoint("sc:stored", modelType, schema)
+	defer verifPoint("sc:init", modelType, schema)
 
 	defer func() {
 		if schema.err != nil {
@@ -417,8 +424,10 @@ func getOrParse(dest interface{}, cacheStore *sync.Map, namer Namer) (*Schema, e
 	}
 
 	if v, ok := cacheStore.Load(modelType); ok {
+		verifPoint("sc:relhit", modelType, v)
 		return v.(*Schema), nil
 	}
+	verifPoint("sc:relmiss", modelType)
 
 	return Parse(dest, cacheStore, namer)
 }
